@@ -1,7 +1,7 @@
 (* Props/C12.v -- snippet returns exactly n samples starting exactly at the requested time. *)
 From Coq Require Import ZArith QArith Qround Reals.
 From Coquelicot Require Import Complex.
-From PB Require Import Lib.PySlice Lib.Dft Lib.DftC Model.Ledger Model.Shift Model.Snippet Proofs.SnippetProofs Proofs.ShiftC Proofs.SnippetC.
+From PB Require Import Lib.PySlice Lib.Dft Lib.DftC Model.Ledger Model.Shift Model.Snippet Proofs.SnippetProofs Proofs.ShiftC Proofs.SnippetC Gen.GenSnippet Proofs.SnippetGen.
 Open Scope Z_scope.
 
 (* t: the start in samples as the double the code holds; tn: the double the code obtains for t + n;
@@ -42,7 +42,33 @@ Theorem C12_tone_at_samples : forall (n : nat), (0 < n)%nat -> forall (k0 m : na
 Proof. exact tone_at_int. Qed.
 (* the numerical side (scipy.fft = this DFT, rounding) is checked by the harness against an independent O(N^2) evaluation. *)
 
+(* tie to the source by translation (T6): the length check, the out-of-bounds test, the fractional-start test, shift = i - t, the new
+   start time and the final slice of the model ARE the terms GENERATED from transforms.snippet on this run *)
+Theorem C12_generated : forall (l : ledger) (t tn : Q) (n : Z),
+  snippet l t tn n =
+  if gen_snip_bad_n n then SErr 1 else
+  if gen_snip_oob t tn (len l) then SErr 1 else
+  let i := gen_snip_i t in
+  if gen_snip_fractional i t then
+    let shift := gen_snip_shift i t in
+    let new_t0 := gen_snip_new_start (t0 l) shift (1 / rate l) in
+    let l1 := if tiny shift then {| t0 := new_t0; rate := rate l; len := len l |}
+              else match step l (OShiftCrop 0 (-1)) with
+                   | Ok l' _ _ => {| t0 := new_t0; rate := rate l; len := len l' |}
+                   | Err _ => l end in
+    match time_slice l1 (fst (gen_snip_slice i n)) (snd (gen_snip_slice i n)) None with
+    | Ok l2 off _ => SOk l2 off (t - inject_Z i)%Q (negb (tiny shift))
+    | Err e => SErr e
+    end
+  else
+    match time_slice l (fst (gen_snip_slice i n)) (snd (gen_snip_slice i n)) None with
+    | Ok l2 off _ => SOk l2 off 0 false
+    | Err e => SErr e
+    end.
+Proof. exact snippet_generated. Qed.
+
 Print Assumptions C12_errors.
 Print Assumptions C12_len_start.
 Print Assumptions C12_whole.
 Print Assumptions C12_value_tone.
+Print Assumptions C12_generated.
